@@ -221,8 +221,8 @@ def props_check(pid):
     for line in out.splitlines():
         if line.startswith("Closed under the global context"):
             closed += 1
-        m = re.match(r"^([A-Za-z_][A-Za-z0-9_.']*)\s*:", line)
-        if m and not line.startswith(" "):
+        m = re.match(r"^([A-Za-z_][A-Za-z0-9_.']*)(\s*:|\s*$)", line)
+        if m and not line.startswith(" ") and "." in m.group(1):
             axioms.add(m.group(1))
     res["closed"] = closed
     res["axioms"] = sorted(axioms)
